@@ -28,7 +28,7 @@ RULE = ('explicit-state BFS to fix-point; a case is one transition (state, API c
         '(D or P non-empty) ; distinct = distinct (state, call, answers) by construction')
 ASSUMPTIONS = [
     'stream alphabet and total stream length are bounded as listed in bounds',
-    'chunks per read are 0..2 characters (every splitting of the bounded stream is produced by construction)',
+    'chunks per read are 0..2 characters (every splitting of the bounded stream is produced by construction); in a timed call a one-character chunk may also arrive with the clock moved past the deadline',
     'transport read_nonblocking is replaced by a scripted one; the real transports are covered by C05/C06/C07',
 ]
 STATES_MEANING = 'distinct canonical states (hidden _before, hidden _buffer, reference pending text, remaining budget, eof, aliasing) after deduplication, summed over tasks; transitions = (state, call, answer sequence) triples executed on the real code'
@@ -121,7 +121,9 @@ class World(object):
         self.enc = None if task['mode'] == 'bytes' else task['mode']
         self.sigma = [ch.encode('ascii') for ch in task['sigma']]
         self.chunks = {}
-        for b in range(0, 3):
+        # chunks per read: 1..maxchunk characters (2 unless the task says otherwise)
+        self.maxchunk = task.get('maxchunk', 2)
+        for b in range(0, self.maxchunk + 1):
             lst = []
             for n in range(1, b + 1):
                 for t in itertools.product(self.sigma, repeat=n):
@@ -175,13 +177,23 @@ class World(object):
                 raise Livelock()
             if env[1] and not self.task.get('resume_after_eof'):
                 return EOF
-            opts = list(self.chunks[min(2, env[0])])
+            opts = list(self.chunks[min(self.maxchunk, env[0])])
             if not used_empty[0]:
                 opts.append(b'')
             if timeout is not None:
                 opts.append(TIMEOUT)
             opts.append(EOF)
-            a = opts[ch.choose(len(opts), 'read')]
+            # environment answer "the data arrives just as the deadline passes": the read returns one
+            # character, but the clock has moved beyond the end of the call's time limit meanwhile
+            n_ontime = len(opts)
+            if timeout is not None:
+                opts += self.chunks[min(1, env[0])]
+            k = ch.choose(len(opts), 'read')
+            a = opts[k]
+            if k >= n_ontime:
+                CLOCK.now += timeout + 0.001
+                if flags is not None:
+                    flags['late_chunk'] += 1
             if a is EOF:
                 env[1] = True
             elif a is TIMEOUT:
